@@ -56,8 +56,8 @@ type SimTask struct {
 	EnvID      string
 	Cmd        common.TaskCommandInfo // as sent in TaskInfo.Data
 	ClassName  string
-	Mode       string // basic | direct | fairmq | hook
-	State      string // O² state as the simulated executor sees it
+	Mode       string            // basic | direct | fairmq | hook
+	State      string            // O² state as the simulated executor sees it
 	Props      map[string]string // properties pushed with the transition commands so far (what the task holds)
 	Mesos      mesos.TaskState
 	Terminal   bool
